@@ -82,6 +82,8 @@ def expect_scalar(field, v):
   kind, lo, loc, hi, hic, optional = SCALARS[field]
   if v is None:
     return 'accept' if optional else 'reject'
+  if type(v) is np.float64:
+    v = float(v)          # numpy's double IS a float (subclass): same domain as the built-in type
   if isinstance(v, bool) or isinstance(v, np.generic):
     return 'unspecified'
   if not is_plain_number(v):
@@ -115,6 +117,8 @@ def expect_range(field, v):
     return 'reject'
   a, b = v
   verdicts = []
+  if kind != 'int':
+    a, b = (float(e) if type(e) is np.float64 else e for e in (a, b))
   for e in (a, b):
     if isinstance(e, bool) or isinstance(e, np.generic):
       verdicts.append('unspecified')
@@ -365,6 +369,23 @@ def run_case(spec):
       if a == c:
         violations.append({'clause': 'equality', 'mech': 'param-eq:' + f,
                            'detail': 'objects differing in %s compare equal' % f})
+    # values far apart that digest-based comparisons cannot tell apart (CPython hashes numbers modulo 2**61 - 1, so
+    # v, v + (2**61 - 1) and v * 2.0**61 hash alike)
+    P61 = 2 ** 61 - 1
+    far = {'n_test': 7 + P61, 'iroas': 2.0 * 2.0 ** 61, 'volume_ratio_tolerance': 0.5 * 2.0 ** 61, 'geo_ratio_tolerance': 2.0 ** 61,
+           'treatment_share_range': (0.1 * 2.0 ** -61, 0.6), 'budget_range': (0.0, 10.0 * 2.0 ** 61),
+           'treatment_geos_range': (1, 3 + P61), 'control_geos_range': (2, 5 + P61), 'n_geos_max': 5 + P61,
+           'n_pretest_max': 30 + P61, 'n_designs': 4 + P61, 'rho_max': 0.95 * 2.0 ** -61, 'sig_level': 0.8 * 2.0 ** -61,
+           'power_level': 0.7 * 2.0 ** -61, 'flevel': 0.95 * 2.0 ** -61}
+    for f, v in far.items():
+      cc = util.call(lambda: P(**dict(valid, **{f: v})))
+      if not cc.ok:
+        continue
+      counters['equality_checked'] += 1
+      counters['equality_far_values'] += 1
+      if a == cc.value or cc.value == a:
+        violations.append({'clause': 'equality', 'mech': 'param-eq:' + f,
+                           'detail': 'objects differing in %s (%r vs %r) compare equal' % (f, valid[f], v)})
   both = sum(1 for f in FIELDS if per_field[f] >= {'accept', 'reject'})
   return {'nontrivial': False, 'nontrivial_fps': sorted(fps), 'fp': 'chunk-%d' % idx,
           'classes': ['grid+pairs'], 'counters': dict(counters),
